@@ -107,7 +107,71 @@ def mutate(text, r):
             toks[k] = toks[r.pick(idx)]
         else:
             toks[k] = r.pick(["0", "1", "(", ")", "{", "}", ";", "int", "*", "-1", "0x7fffffffffffffff", "1.5e300", "\"s\"", "sizeof", "__LINE__", "__COUNTER__", "__FILE__"])
+    # value-preserving-shape mutations: programs mostly stay valid, constants and operators change
+    nums = [i for i in idx if toks[i][:1].isdigit()]
+    opsi = [i for i in idx if toks[i] in ("+", "-", "*", "/", "%", "<<", ">>", "<", ">", "<=", ">=", "&", "|", "^", "==", "!=")]
+    for _ in range(r.pick([0, 1, 2, 4])):
+        if nums and r.below(2):
+            i = r.pick(nums)
+            toks[i] = r.pick(FLTLITS) if ("." in toks[i] or "e" in toks[i].lower() and not toks[i].lower().startswith("0x")) else r.pick(INTLITS[:37])
+        elif opsi:
+            i = r.pick(opsi)
+            toks[i] = r.pick(["+", "-", "*", "/", "%", "<<", ">>", "<", ">", "<=", ">=", "&", "|", "^", "==", "!="])
     return "".join(toks)
+
+
+INTLITS = ["0", "1", "2", "3", "7", "8", "10", "31", "32", "63", "64", "127", "128", "255", "256", "32767", "32768", "65535", "65536", "2147483647", "2147483648",
+           "4294967295", "4294967296", "9223372036854775807", "0x7fffffffffffffff", "0x8000000000000000", "0xffffffffffffffff", "18446744073709551615U",
+           "1U", "1L", "1UL", "1LL", "0xffu", "0x80000000", "0x80000000L", "077", "0b1011", "-1", "-2", "-128", "-2147483648L", "'a'", "'\\0'", "'\\377'", "'\\n'"]
+FLTLITS = ["0.0", "1.0", "0.5", "1.5", "0.1", "2.5e-3", "1e10", "1e308", "1.7976931348623157e308", "4.9e-324", "1e-400", "3.4028235e38f", "1.17549435e-38f", "0.1f", "16777217.0f",
+           "0x1p-1074", "0x1.fffffffffffffp1023", "0x1.8p1", "1e4932L", "3.14159265358979323846L", "9007199254740993.0", "123456789012345678.0", "5e-1", ".5", "5."]
+
+
+def gen_expr(r, depth, flt):
+    if depth <= 0 or r.below(4) == 0:
+        return r.pick(FLTLITS if flt and r.below(3) else INTLITS)
+    k = r.below(10)
+    a = gen_expr(r, depth - 1, flt)
+    if k == 0:
+        return "(%s%s)" % (r.pick(["-", "~", "!", "+"]) if not flt else r.pick(["-", "+", "!"]), a)
+    if k == 1:
+        return "(%s ? %s : %s)" % (a, gen_expr(r, depth - 1, flt), gen_expr(r, depth - 1, flt))
+    if k == 2 and not flt:
+        return "(%s %s %s)" % (a, r.pick(["<<", ">>"]), r.pick(["0", "1", "3", "7", "31", "32", "63"]))
+    if k == 3 and not flt:
+        return "(%s %s (%s | 1))" % (a, r.pick(["/", "%"]), gen_expr(r, depth - 1, False))
+    ops = ["+", "-", "*", "<", "<=", ">", ">=", "==", "!=", "&&", "||"] + ([] if flt else ["&", "|", "^"])
+    if flt and k == 4:
+        return "(%s / %s)" % (a, r.pick(["2.0", "3.0", "0.1", "7.0f", "1e-3"]))
+    if k == 5:
+        return "((%s)%s)" % (r.pick(["char", "unsigned char", "short", "unsigned short", "int", "unsigned", "long", "unsigned long", "_Bool"] + (["float", "double", "long double"] if flt else [])), a)
+    return "(%s %s %s)" % (a, r.pick(ops), gen_expr(r, depth - 1, flt))
+
+
+def gen_constexpr_file(r):
+    """constant expressions in the three places the compiler evaluates them itself: #if, integer constant
+    expressions (global initializers, array sizes, case labels, enum values) and floating initializers"""
+    out = []
+    n = r.range(4, 14)
+    for i in range(n):
+        k = r.below(6)
+        if k == 0:
+            e = gen_expr(r, r.range(1, 4), False).replace("(char)", "").replace("(unsigned char)", "").replace("(short)", "").replace("(unsigned short)", "")
+            e = re.sub(r"\((int|unsigned|long|unsigned long|_Bool)\)", "", e)
+            out.append("#if %s\nint pp_true_%d;\n#else\nint pp_false_%d;\n#endif" % (e, i, i))
+        elif k == 1:
+            out.append("long g_%d = %s;" % (i, gen_expr(r, r.range(1, 4), False)))
+        elif k == 2:
+            out.append("%s f_%d = %s;" % (r.pick(["double", "float", "long double", "double"]), i, gen_expr(r, r.range(1, 3), True)))
+        elif k == 3:
+            out.append("enum { E_%d = %s };\nchar a_%d[((E_%d) & 15) + 1];" % (i, gen_expr(r, r.range(1, 3), False), i, i))
+        elif k == 4:
+            out.append("struct B_%d { int a : %d; unsigned b : %d; long c : %d; } b_%d = { %s, %s, %s };" % (
+                i, r.range(1, 31), r.range(1, 32), r.range(1, 63), i, gen_expr(r, 1, False), gen_expr(r, 1, False), gen_expr(r, 1, False)))
+        else:
+            out.append("int sw_%d(int x) { switch (x) { case %s: return 1; case 1000 ... 1000 + %d: return 2; default: return (int)(%s); } }" % (
+                i, r.pick(["-5", "0", "7", "'a'", "0x10"]), r.below(50), gen_expr(r, 2, r.below(2) == 0)))
+    return "\n".join(out) + "\nint main(void) { return 0; }\n"
 
 
 def list_inputs(src):
@@ -116,14 +180,21 @@ def list_inputs(src):
     return own, tests
 
 
-OPTION_SETS = [["-S"], ["-S"], ["-S", "-fPIC"], ["-S", "-fno-common"], ["-S", "-fcommon"], ["-E"], ["-E"], ["-c"], ["-c", "-fPIC"],
+OPTION_SETS = [["-M", "-MT", "foo bar$x.o"], ["-MD", "-MP", "-MT", "a#b", "-S"], ["-MMD", "-c"], ["-M", "-MP"], ["-M", "-MQ", "x y$.o"], ["-MD", "-MT", "t1", "-MT", "t2", "-E"],
+               ["-E", "-xc"], ["-S", "-x", "c"], ["-E", "-DX=a=b", "-DY=", "-UX", "-D", "Z(a,b)=a##b"], ["-S", "-idirafter", "test", "-fno-common"],
+               ["-E", "-include", "stdarg.h", "-include", "stddef.h"], ["-S", "-O2", "-g", "-Wall", "-std=c11", "-fno-builtin"], ["-c", "-fcommon", "-DNDEBUG"],
+               ["-S"], ["-S"], ["-S", "-fPIC"], ["-S", "-fno-common"], ["-S", "-fcommon"], ["-E"], ["-E"], ["-c"], ["-c", "-fPIC"],
                ["-M"], ["-MD", "-S"], ["-MD", "-MP", "-c"], ["-S", "-DFOO=1", "-DBAR"], ["-S", "-U__x86_64__"], ["-E", "-DM(x)=x+1"], ["-S", "-include", "stddef.h"]]
 
 
 def gen_case(seed, src, own, tests, avail=None):
     r = Rng(seed)
-    x = r.below(20)
-    if x < 2:
+    x = r.below(24)
+    gen_text = None
+    if x >= 20:
+        path, mutated = tests[0], False
+        gen_text = gen_constexpr_file(r)
+    elif x < 2:
         path, mutated = r.pick(own), False
     elif x < 7:
         path, mutated = r.pick(tests), False
@@ -141,15 +212,22 @@ def gen_case(seed, src, own, tests, avail=None):
     same_env = r.below(5) == 0 and ra != rb      # pure stage equivalence: different replica, same environment
     if same_env:
         e2 = json.loads(json.dumps(e1))
-    return {"seed": seed, "input": os.path.relpath(path, src), "mutated": mutated, "mut_seed": r.u64(), "opts": opts, "a": ra, "b": rb, "e1": e1, "e2": e2}
+    case = {"seed": seed, "input": os.path.relpath(path, src), "mutated": mutated, "mut_seed": r.u64(), "opts": opts, "a": ra, "b": rb, "e1": e1, "e2": e2}
+    if gen_text is not None:
+        case["input"] = "test/generated_constexpr.c"
+        case["text"] = gen_text
+    return case
 
 
 def materialise(case, src, wdir):
     """writes the input file for this case; returns (abs path, text)"""
     p = os.path.join(src, case["input"])
-    text = open(p, errors="replace").read()
     if case.get("text") is not None:
         text = case["text"]
+    else:
+        text = open(p, errors="replace").read()
+    if case.get("text") is not None:
+        pass
     elif case["mutated"]:
         text = mutate(text, Rng(case["mut_seed"]))
     d = os.path.join(wdir, "in", os.path.dirname(case["input"]))
